@@ -206,12 +206,11 @@ mutual
     slots", members.  A List's members are the elements its slots hold. -/
 def toFNode : Node → Flatland.Flat.FNode
   | .mk i s kids =>
-    let nm : Option Str :=
-      if s.kind = .slot then some i.key else (match i.nameOv with | some x => some x | none => s.name)
     match s.kind with
-    | .integer | .string => .mk nm true true i.u false []
-    | .list => .mk nm false true [] true (toFSlots kids)
-    | _ => .mk nm false true [] false (toFNodeL kids)
+    | .integer | .string => .mk (Node.name (.mk i s kids)) true true i.u false []
+    | .list => .mk (Node.name (.mk i s kids)) false true [] true (toFSlots kids)
+    | .slot => .mk (Node.name (.mk i s kids)) false true [] false []     -- `children` of a slot: none
+    | _ => .mk (Node.name (.mk i s kids)) false true [] false (toFNodeL kids)
 def toFNodeL : List Node → List Flatland.Flat.FNode
   | [] => []
   | k :: ks => toFNode k :: toFNodeL ks
